@@ -4,6 +4,8 @@ CONSTANTS Dates = {1}
           MaxMerges = 3
           MaxAgain = 0
           Stable = FALSE
+          Zones = {0}
+          ZoneAware = TRUE
 INIT Init
 NEXT NextMC
 CONSTRAINT ReadsAreLeaves
